@@ -24,3 +24,53 @@ def map_entries(fn, items, procs=None):
     with ctx.Pool(processes=min(n, len(_ITEMS))) as pool:
         # largest jobs first would be better; keep submission order = listing order
         return pool.map(_call, range(len(_ITEMS)), chunksize=1)
+
+
+def merge_out(a, b):
+    """merge two per-entry summaries (counts add up, lists concatenate, dicts merge recursively)"""
+    if a is None:
+        return b
+    for k, v in b.items():
+        if k not in a:
+            a[k] = v
+        elif isinstance(v, bool) or isinstance(v, str):
+            pass
+        elif isinstance(v, (int, float)):
+            a[k] = a[k] + v
+        elif isinstance(v, list):
+            if k in ("samples",) and len(a[k]) >= 3:
+                continue
+            a[k] = a[k] + [x for x in v if not (k == "stubs" and x in a[k])]
+        elif isinstance(v, dict):
+            merge_out(a[k], v)
+    return a
+
+
+def explore_entries(run_entry, entries, frontier=3):
+    """run_entry(entry, prefixes, stop_pending) -> summary dict with key "pending".
+    Phase 1 expands every entry until `frontier` x workers subtrees are pending; phase 2 exhausts the
+    subtrees on all cores.  Returns one merged summary per entry (same order)."""
+    nproc = int(os.environ.get("VERIF_JOBS", "0")) or min(14, os.cpu_count() or 4)
+    target = max(2, (frontier * nproc) // max(1, len(entries))) if nproc > 1 else None
+    first = map_entries(lambda e: run_entry(e, None, target), entries)
+    merged = []
+    jobs = []
+    for i, (e, out) in enumerate(zip(entries, first)):
+        if isinstance(out, Exception) or out is None:
+            merged.append(out)
+            continue
+        pend = out.pop("pending", [])
+        merged.append(out)
+        for p in pend:
+            jobs.append((i, p))
+    if jobs:
+        second = map_entries(lambda j: run_entry(entries[j[0]], [j[1]], None), jobs)
+        for (i, _), out in zip(jobs, second):
+            if isinstance(out, Exception) or out is None:
+                if isinstance(merged[i], dict):
+                    merged[i].setdefault("inconclusive", []).append("worker failed: %r" % (out,))
+                continue
+            out.pop("pending", None)
+            if isinstance(merged[i], dict):
+                merge_out(merged[i], out)
+    return merged
